@@ -134,4 +134,11 @@ META = {
         note="'compiles without the alloc crate' and 'offers no heap backend' are build-artifact observations (rustc -Zls=root, nm -u, a compile probe with its control), complemented by the run-time allocation counter.",
         technique="cross-build differential digest + allocation counter + artifact inspection",
     ),
+    "C16": dict(
+        text="~300 systematically generated conflict programs (every handle-producing method x every conflicting-action class) and ~40 controls: a conflict program that builds is the refuting event and is then executed under Miri to attach the UB report as witness; "
+             "controls must build, run natively and run clean under Miri. 21 admitted programs of the typed-view / ElementPointer::downcast_mut / IterMut::clone family are recorded as known findings (D12) by exact signature; any other admitted program is a VIOLATION. Exploration level.",
+        design_ref="DESIGN.md 3/C16, 4, 0.1 (D12)",
+        note="Trusted base: rustc's borrow checker decides accept/reject (a program that does not compile has no execution to monitor; see DESIGN.md 4). Any error attributed to the probe's span counts as rejected; error codes are recorded in the evidence.",
+        technique="hostile-program construction with controls; admitted programs and controls executed under Miri",
+    ),
 }
